@@ -15,6 +15,9 @@ var c12Alphabet = []string{
 	"case", "esac", ";;", ">f", "<<H",
 }
 
+// c12Alphabet5 is the sub-alphabet of the length-5 sequences (thorough tier).
+var c12Alphabet5 = []string{"a", ";", "\n", "&", "|", "&&", "!", "(", ")", "{", "}", "else", "in", ";;", ">f", "<<H"}
+
 // c12HeredocBody maps the here-document tokens to the body (including the
 // delimiter line) the renderer emits after the next newline.
 var c12HeredocBody = map[string]string{
